@@ -111,6 +111,9 @@ P["C15"] = dict(level="proof", verus=["v_diff"], kani=[], kani_thorough=[], nati
     level_note="verify_compatiblity's file handling and the definition codec at data version 2 are not under contract (two genuine defects there were found by demonstration and fixed). The method-matching loop uses iterator closures outside Verus' subset.",
     technique="Verus contract on diff_schema + bounded native enumeration of verify_backward_compatible", trusted_base=TB)
 P["C05"]["native"] = ["pairs_diff"]
+P["C08"]["native"] = sorted(n for n in nreg if "C08" in nreg[n]["props"])
+P["C07"]["native"] = sorted(n for n in nreg if "C07" in nreg[n]["props"])
+P["C17"]["native"] = sorted(n for n in nreg if "C17" in nreg[n]["props"])
 P["C13"]["native"] = ["pairs_diff"]
 P["C11"]["native"] = ["pairs_layout"]
 P["C06"]["verus"].append("v_diff")       # diff_schema runs on untrusted schema bytes during load: no panic / no out-of-bounds
